@@ -1052,6 +1052,60 @@ val to_svg_string_compressed : z list -> z list res
 
 val to_svg_with_override_size : z list -> settings -> q -> q -> z list res
 
+type path = z list
+
+type read_result =
+| ReadText of z list
+| ReadNotUtf8
+| ReadError
+
+type env = { read_file : (path -> read_result); stdin : read_result;
+             can_write : (path -> bool); parse_usize : (z list -> z option);
+             parse_f32 : (z list -> q option) }
+
+type options = { o_inline : bool; o_input : z list option;
+                 o_output : path option; o_background : z list option;
+                 o_fill : z list option; o_font_family : z list option;
+                 o_font_size : z list option; o_stroke_width : z list option;
+                 o_stroke_color : z list option; o_scale : z list option }
+
+type outcome =
+| Exit of z * z list * bool * (path * z list) list
+| Crash
+
+val unescape_nl : z list -> z list
+
+type input_result =
+| InText of z list
+| InCrash
+| InFail
+
+val read_input : env -> options -> input_result
+
+val opt_str : z list option -> z list -> z list
+
+val settings_of : env -> options -> settings option
+
+val run : env -> options -> outcome
+
+type entry = { e_name : z list; e_ext : z list; e_is_file : bool;
+               e_content : read_result }
+
+type file_result =
+| FileOk of (path * z list)
+| FileFailed
+| FileCrash
+
+val convert_file : env -> (z list -> path) -> entry -> file_result
+
+val matching : z list -> entry -> bool
+
+val build_loop :
+  env -> (z list -> path) -> z list -> entry list -> ((path * z list)
+  list * nat) option
+
+val build : env -> bool -> (z list -> path) -> z list -> entry list -> outcome
+
 val join : z list -> z list list -> z list
 
 val commas : z list list -> z list
@@ -1109,3 +1163,18 @@ val op_emit :
   list) list -> z list -> cell -> z list
 
 val run_op : z -> settings -> q -> q -> z list -> z list
+
+type cli_case = { cc_files : (z list * read_result) list;
+                  cc_stdin : read_result; cc_nowrite : z list list;
+                  cc_usize : (z list * z) list; cc_f32 : (z list * q) list;
+                  cc_opts : options }
+
+val assoc_l : z list -> (z list * 'a1) list -> 'a1 option
+
+val env_of_case : cli_case -> env
+
+val op_cli : cli_case -> ((z * bool) * z list) * (z list * z list) list
+
+val op_build :
+  cli_case -> bool -> z list -> z list -> entry list -> ((z * bool) * z
+  list) * (z list * z list) list
